@@ -123,6 +123,10 @@ func main() {
 			ncase = *vlib.FlagN
 		}
 		cfgs := streamConfigs(r, true, 0)
+		for k, variant := range []string{"expired-inside-OnBoot", "live-from-goroutine-during-OnBoot"} {
+			res.Eval(runBootStopCase(cfgs[(k+3+int(res.Seed))%len(cfgs)], variant, keys))
+			res.Checkpoint()
+		}
 		// the client's control API: Client.Stop after a callback asked for shutdown, and Client.Stop twice
 		for k := 0; k < 2; k++ {
 			cc := cfgs[(k+int(res.Seed))%len(cfgs)]
@@ -190,7 +194,11 @@ func main() {
 			}
 		}
 		for _, call := range []int{vsys.CRecvfrom, vsys.CSendto} {
-			for _, e := range []unix.Errno{unix.ECONNREFUSED, unix.ENOBUFS} {
+			errnos := []unix.Errno{unix.ECONNREFUSED, unix.ENOBUFS}
+			if call == vsys.CRecvfrom {
+				errnos = append(errnos, unix.EAGAIN) // the datagram was dropped by the kernel after epoll had reported it (bad checksum)
+			}
+			for _, e := range errnos {
 				for k := int64(1); k <= K && k <= 3 && mode == "c18"; k++ {
 					if runC18UDPCase(res.Seed*1000609+uint64(k), call, e, k, keys) {
 						reached++
@@ -329,6 +337,14 @@ func runLifeMode(mode string, r *vlib.Rand, keys map[string]struct{}) {
 		for i, via := range triggerVias {
 			c := cfgs[(i+int(res.Seed))%len(cfgs)]
 			n := runLifeCase(c, res.Seed*1000213+uint64(i), lifeOpts{npeers: r.Pick(0, 3, 6), shutdownFrom: "OnClose", moment: "idle", via: via}, keys)
+			res.Eval(n)
+			res.Checkpoint()
+		}
+		// ... and the Shutdown an OnOpen returns counts also for a connection brought in through Engine.Register
+		for i, rp := range []bool{false, true} {
+			c := cfgs[(i+7+int(res.Seed))%len(cfgs)]
+			c.Net, c.ReusePort, c.Rotate, c.LB = "tcp", rp, false, gnet.LeastConnections
+			n := runLifeCase(c, res.Seed*1000217+uint64(i), lifeOpts{npeers: r.Pick(0, 4), shutdownFrom: "OnOpen", moment: "idle", via: "register"}, keys)
 			res.Eval(n)
 			res.Checkpoint()
 		}
